@@ -101,7 +101,8 @@ def run_pool(scen):
     out = []
     for login, ops, tag in scen:
         lines, obs, b = connbench.run_scenario(ops, login=login)
-        info = {"steps": list(b.steps), "raw_escapes": list(b.raw_escapes), "unhandled": len(b.loop.unhandled)}
+        info = {"steps": list(b.steps), "raw_escapes": list(b.raw_escapes), "unhandled": len(b.loop.unhandled),
+                "extra_accepted": [n for n, _ in b.extra_accepted]}
         b.close()
         out.append((lines, obs, info))
     return out
@@ -134,7 +135,13 @@ def correspond(ck: Check, scen, results, keys, what):
 
 # ------------------------------------------------------------------ trace specifications (on the implementation)
 
-def spec_c05(obs):
+def spec_c05(obs, info=None):
+    if info and info.get("extra_accepted"):
+        return "second-attempt-accepted:" + info["extra_accepted"][0], len(obs) - 1
+    return spec_c05_trace(obs)
+
+
+def spec_c05_trace(obs):
     """rank never decreases; closed is absorbing; (is_connected <-> connected is observed through st itself);
     a second start / finish is refused"""
     prev = None
